@@ -315,8 +315,9 @@ def run_macro_check(pid, tier, seed, wd):
     # ------------------------------------------------------------------ 1. model checking
     mc = SYS_MC[pid]
     mc_cfg = os.path.join(wd, "SystemMC.cfg")
-    # the registry layout has three functions: its thorough bound is one version deeper, not two
-    big = mc["layout"] == "reg"
+    # the registry layout (three functions) and the thread layout (a cache per thread) get a thorough bound
+    # that is one version deeper than the quick one, not two
+    big = mc["layout"] in ("reg", "thread")
     consts = {"Quirks": set(), "Keys": set(mc["keys"]), "MaxVer": (4 if big else 5) if thorough else 3,
               "MaxHits": (1 if big else 2) if thorough else 1,
               "SizesMem": {1, 2, 4}, "LayoutSet": mc["layout"], "MaxLookups": mc["lookups"]}
